@@ -61,3 +61,13 @@ func (s *RegionRequestSender) VerifC10SelectorString() string {
 	}
 	return s.replicaSelector.String()
 }
+
+// VerifC10ProxyIdx returns the remembered proxy of a cached region (regionStore.proxyTiKVIdx:
+// -1 = none) or -2 when the region is not in the cache.
+func (c *RegionCache) VerifC10ProxyIdx(id RegionVerID) int {
+	r := c.GetCachedRegionWithRLock(id)
+	if r == nil {
+		return -2
+	}
+	return int(r.getStore().proxyTiKVIdx)
+}
